@@ -29,12 +29,12 @@ ASSUMPTIONS = ['linearity of seed/extract in f: monomials decide all polynomials
                'tolerance 1e-9 x (1 + max |Taylor coefficient|): extract_tensor multiplies by the float matrix Gamma (C15)']
 NMAX = {'quick': 4, 'thorough': 5}
 MDEG = {'quick': 3, 'thorough': 4}
-DTEN = {'quick': 3, 'thorough': 4}
+DTEN = {'quick': 3, 'thorough': 4}      # tensor units are further limited to 15 (quick) / 35 (thorough) directions
 TOL = 1e-9
 
 
 def bounds(tier):
-    return {'N_max': NMAX[tier], 'monomial_degree_max': MDEG[tier], 'tensor_order_max': DTEN[tier], 'points': '{-2..2}^N for N<=3, 7 fixed points otherwise'}
+    return {'N_max': NMAX[tier], 'monomial_degree_max': MDEG[tier], 'tensor_order_max': DTEN[tier], 'tensor_directions_max': 15 if tier == 'quick' else 35, 'points': '{-2..2}^N for N<=3, 7 fixed points otherwise'}
 
 
 def monomials(N, m):
@@ -100,8 +100,9 @@ def units(tier, seed):
             us.append({'kind': 'mono', 'N': N, 'driver': drv, 'tier': tier, 'seed': seed})
         for d in range(1, DTEN[tier] + 1):
             from math import comb
-            if tier == 'quick' and comb(N + d - 1, d) > 15:
-                continue            # Gamma is rebuilt by the library on every init/extract call: left to the thorough tier
+            if comb(N + d - 1, d) > (15 if tier == 'quick' else 35):
+                continue            # Gamma is rebuilt by the library on every init/extract call (3.7 s for N=5, d=4): larger ones
+                                    # are left to the thorough tier up to 35 directions; the Gamma identity itself is C15
             for form in ('prod', 'pow'):
                 us.append({'kind': 'mono', 'N': N, 'driver': 'tensor', 'd': d, 'form': form, 'tier': tier, 'seed': seed})
     for N in range(1, NMAX[tier] + 1):
@@ -155,6 +156,11 @@ def run_mono(c, N, drv, tier, only_d=None, only_form=None):
     pts = points(N, tier)
     if drv == 'tensor' and len(pts) > 7:
         pts = pts[::max(1, len(pts) // 7)]     # init/extract_tensor rebuild Gamma on every call (library cost)
+    if drv == 'tensor' and only_d is not None:
+        from math import comb
+        if comb(N + only_d - 1, only_d) > 15:
+            pts = pts[:2]
+            monos = [a for a in monos if sum(a) >= only_d - 1]
     grad = lambda al, x: np.array([dmono(al, tuple(int(j == i) for j in range(N)), x) for i in range(N)])
 
     def hess(al, x):
@@ -384,7 +390,7 @@ def run_vecpoly(c, N, drv, tier):
     from ..ref import qpoly
     from math import comb
     d = {'tensor2': 2, 'tensor3': 3}.get(drv)
-    if d is not None and tier == 'quick' and comb(N + d - 1, d) > 15:
+    if d is not None and comb(N + d - 1, d) > (15 if tier == 'quick' else 21):
         return
     pts = [np.array([2, -1, 3, 1, -2][:N], dtype=float), np.array([-1, 2, 1, -3, 2][:N], dtype=float)]
     v = np.array([(-1) ** i * (i + 1) for i in range(N)], dtype=float)
@@ -394,6 +400,8 @@ def run_vecpoly(c, N, drv, tier):
     X0 = seeders[drv](pts[0])
     D, P = X0.data.shape[:2]
     Ls = sorted(set([1, 2, 3, 4, N, P, D, P + 1]))
+    if d is not None and comb(N + d - 1, d) > 15:
+        Ls = sorted(set([1, N, P, D]))          # Gamma is rebuilt on every init / extract call
     c.out['lists'] = {}
     for L in Ls:
         for name, f in vec_forms(N, L):
